@@ -935,6 +935,14 @@ class Interp:
             argt = self.deref_all(A[1]) if len(A) > 1 else UNIT
             cargs = [c.v for c in argt[1]] if argt[0] == 'tuple' else ([] if argt == UNIT else [argt])
             return self.call_closure(A[0], cargs, depth)
+        if name.startswith('core::bool::<impl bool>::') and A:
+            b_ = self.deref_all(A[0])
+            if b_ is not None and b_[0] == 'bool':
+                bv_ = b_[1] if b_[1] is not None else self.choose('bool')
+                if seg == 'then_some':
+                    return mk_option(A[1]) if bv_ else mk_option(None)
+                if seg == 'then':
+                    return mk_option(self.call_closure(A[1], [], depth)) if bv_ else mk_option(None)
         # --- Option / Result ---------------------------------------------------------------------------------
         if name.startswith('core::option::Option::') or name.startswith('core::result::Result::'):
             return self.model_option(name, seg, A, depth)
@@ -1507,6 +1515,8 @@ class Interp:
                         ok = False
                         break
                     x = r[3][0].v
+                elif kind == 'inspect':
+                    self.call_closure(st[1], [('ref', Cell(x))], depth)
                 elif kind == 'copied':
                     x = clone_value(self.deref_all(x))
                 elif kind == 'enumerate':
@@ -1532,7 +1542,7 @@ class Interp:
             if it[0] != 'iter':
                 raise Unmodelled('%s on %s' % (name, it[0]))
             io = it[1]
-            if seg in ('map', 'filter', 'filter_map'):
+            if seg in ('map', 'filter', 'filter_map', 'inspect'):
                 return ('iter', IterObj(io.items, io.stages + [(seg, A[1])]))
             if seg in ('copied', 'cloned'):
                 return ('iter', IterObj(io.items, io.stages + [('copied',)]))
